@@ -207,6 +207,13 @@ def arc_length_sampled(c, scipy):
         c.ensures('close-to-the-chord-sum-of-a-fine-subdivision', abs(L - ch) <= 1e-4 * max(ch, 1e-9) + 1e-9 * sc)
         tm = 0.5 * (t0 + t1)
         c.ensures('additive', abs(arc.length(t0, tm) + arc.length(tm, t1) - L) <= 1e-6 * max(L, 1e-9) + 1e-9 * sc)
+        # the arc was new and has only been asked for parts so far: the whole length now, and again
+        whole = arc.length()
+        chw = sum(abs(arc.point((k + 1) / float(N)) - arc.point(k / float(N))) for k in range(N))
+        c.ensures('whole-length-after-partial-queries', abs(whole - chw) <= 1e-4 * max(chw, 1e-9) + 1e-9 * sc)
+        if scipy:          # (the chord recursion is slow: the repeated queries only with the quadrature)
+            c.ensures('whole-length-asked-twice', abs(arc.length() - whole) <= 1e-9 * max(whole, 1e-9))
+            c.ensures('partial-length-after-the-whole', abs(arc.length(t0, t1) - L) <= 1e-9 * max(L, 1e-9) + 1e-12 * sc)
     finally:
         sp._quad_available = old
 
@@ -246,6 +253,7 @@ def arc_reported_pairs_are_real_sampled(c, other):
     rx, ry = k * (1 + abs(c.real('rx')) % 9), k * (1 + abs(c.real('ry')) % 9)
     rot = [0.0, 0.0, 30.0, 77.0, 90.0, -45.0][int(abs(c.real('rot')) * 10) % 6]
     ctr = k * _small(c.cplx('center'), 100)
+    ctr += k * [0, 0, 0, 1e3, 1e4][int(abs(c.real('offset')) * 10) % 5] * cmath.exp(1j * c.real('offset_dir') * 100)   # nor a preferred place
     a0 = (c.real('a0') * 100) % 360 - 180
     d = (20 + abs(c.real('d')) * 100 % 320) * (1 if c.bool('sweep') else -1)
     w = cmath.exp(1j * math.radians(rot))
@@ -327,6 +335,7 @@ def arc_transversal_crossing_is_reported_once_sampled(c, other):
     rx, ry = k * (1 + abs(c.real('rx')) % 2), k * (1 + abs(c.real('ry')) % 2)
     rot = [0.0, 0.0, 30.0, 77.0, 90.0, -45.0][int(abs(c.real('rot')) * 10) % 6]
     ctr = k * _small(c.cplx('center'), 10)
+    ctr += k * [0, 0, 0, 1e3, 1e4][int(abs(c.real('offset')) * 10) % 5] * cmath.exp(1j * c.real('offset_dir') * 100)   # nor a preferred place
     a0 = (c.real('a0') * 100) % 360 - 180
     d = (20 + abs(c.real('d')) * 100 % 320) * (1 if c.bool('sweep') else -1)
     w = cmath.exp(1j * math.radians(rot))
@@ -344,7 +353,19 @@ def arc_transversal_crossing_is_reported_once_sampled(c, other):
     dirn = tang * cmath.exp(1j * math.radians(40 + 100 * (abs(c.real('ang')) % 1)))
     h1, h2 = k * (0.05 + 0.1 * (abs(c.real('h1')) % 1)), k * (0.05 + 0.1 * (abs(c.real('h2')) % 1))   # chords here are >= 0.42 k long
     if other == 'L':
-        seg, u = sp.Line(p - dirn * h1, p + dirn * h2), h1 / (h1 + h2)
+        axis = int(abs(c.real('axis')) * 10) % 4          # half of the lines are EXACTLY vertical / horizontal
+        if axis >= 2:
+            dirn = (1j if axis == 2 else 1) * (1 if c.bool('forward') else -1)
+            ang = abs(math.degrees(cmath.phase(dirn / tang)))
+            c.assume(40 <= ang <= 140)
+            a_, b_ = p - dirn * h1, p + dirn * h2
+            if axis == 2:
+                a_, b_ = complex(p.real, a_.imag), complex(p.real, b_.imag)
+            else:
+                a_, b_ = complex(a_.real, p.imag), complex(b_.real, p.imag)
+            seg, u = sp.Line(a_, b_), h1 / (h1 + h2)
+        else:
+            seg, u = sp.Line(p - dirn * h1, p + dirn * h2), h1 / (h1 + h2)
     else:
         perp = 1j * dirn
         P0 = p - dirn * h1 + perp * 0.3 * h1 * (abs(c.real('e1')) % 1)
@@ -355,7 +376,7 @@ def arc_transversal_crossing_is_reported_once_sampled(c, other):
         else:
             P1 = P0 + (Pn - P0) / 3 + perp * 0.1 * h1 * (abs(c.real('e3')) % 1)
             seg = sp.CubicBezier(P0, P1, (8 * p - P0 - 3 * P1 - Pn) / 3, Pn)
-    c.assume(abs(arc.point(t) - p) <= 1e-9 * k * 20 and abs(seg.point(u) - p) <= 1e-9 * k * 20)     # the construction is what it claims
+    c.assume(abs(arc.point(t) - p) <= 1e-9 * (k * 20 + abs(ctr)) and abs(seg.point(u) - p) <= 1e-9 * (k * 20 + abs(ctr)))     # the construction is what it claims
     near = [(t1, t2) for (t1, t2) in arc.intersect(seg) if abs(t1 - t) <= 1e-4 and abs(t2 - u) <= 1e-4]
     c.ensures('arc.intersect(seg):the-crossing-is-reported', len(near) >= 1)
     c.ensures('arc.intersect(seg):reported-once', len(near) <= 1)
